@@ -508,6 +508,7 @@ class Interp:
             actuals[str(k).lower()] = a
         self.nfid += 1
         cf = Frame(self.nfid, callee)
+        log_pos = len(self.log)      # the 'B' event goes before the reads of the actual arguments
         bindings = []
         pending_arrays = []
         valued = []
@@ -558,7 +559,7 @@ class Interp:
             cf.scopes[0][dn] = View(v.store, v.offset, shape, lbs, canonical_strides(shape))
             cf.names[0][v.store.sid] = cf.names[0].get(v.store.sid, ()) + (dn,)
         self._locals(cf)
-        self._ev('B', o, cf.fid, tuple(bindings))
+        self.log.insert(log_pos, ('B', o, cf.fid, tuple(bindings)))
         self._ev('F', cf.fid, callee, cf.names[0], tuple(valued))
         self.exec_body(callee.body, cf)
         self._ev('f', cf.fid)
